@@ -112,6 +112,10 @@ func convert(in interface{}) Object {
 
 	case reflect.Interface:
 
+		if val.IsNil() {
+			return Nil{}
+		}
+
 		if val.Type().NumMethod() == 0 {
 			return convert(val.Interface())
 		}
